@@ -37,7 +37,7 @@ HARNESSES = [
     dict(name="dir_add", file="dir_add.c", label="proved", timeout=170, unwind=4,
          cases=[dict(id="all", tier="quick")]),
     dict(name="dir_end", file="dir_end.c", label="bounded(entries<=3,name<=4)",
-         timeout=300, unwind=13,
+         timeout=300, unwind=13, nochecks=["--conversion-check"],
          pre_instrument_flags=["--replace-calls", "get_conseq_entry_count:stub_conseq"],
          cases=[dict(id="r%d%d%d" % r, defines={"R0": r[0], "R1": r[1], "R2": r[2]},
                      tier="quick" if sum(r) <= 2 or r == (2, 1, 0) else "thorough")
